@@ -407,13 +407,22 @@ def _runner_main() -> None:
             for tm in self.timers:
                 if tm.active():
                     tm.cancel()
-            if verdict is None:
+            if verdict in (None, "HANG"):
                 obs = " ".join(self.tokens)
                 obs += " #%d.%d;%d.%d" % (self.rlen["A"], self.rck["A"], self.rlen["B"], self.rck["B"])
                 obs += " ##" + ";".join(
                     "%s:made=%d,lost=%d,mism=%s" % (s, self.made[s], self.nlost[s],
                                                     "-" if self.mism[s] is None else self.mism[s]) for s in "AB")
                 obs += ";E:" + ("+".join(errors[:3]) or "-")
+                if verdict == "HANG":       # not finished within the limit: report what happened so far
+                    obs += ";T:timeout"
+                    for s in "AB":
+                        t = self.t.get(s)
+                        if t is not None and not self.nlost[s]:
+                            try:
+                                t.abortConnection()
+                            except Exception:
+                                pass
             else:
                 obs = verdict
                 for s in "AB":
@@ -649,6 +658,10 @@ def oracle(case, obs):
                 lost[s] = x[1:]
                 nlost[s] += 1
                 wopen[s] = False
+    if direct.get("T"):
+        never = [s for s in "AB" if info[s]["made"] == "1" and nlost[s] == 0]
+        return Failure(case, f"{rk}: the connection did not finish within the per-case limit; connectionLost never "
+                       f"called on side(s) {never or '-'}", "connectionLost-never" if never else "never-finished")
     for s in "AB":
         o = "B" if s == "A" else "A"
         if info[s]["made"] == "0":
